@@ -526,10 +526,14 @@ def gen_field(rng, schema, f, depth):
         items, seen = [], set()
         for _ in range(n):
             k = gen_scalar(rng, f.mapK)
+            if rng.random() < 0.25:      # default key (and below, often a default value too)
+                k = {"bool": ("b", False), "string": ("s", b"")}.get(f.mapK, ("i", 0))
             if k[1] in seen or (isinstance(k[1], bool) and int(k[1]) in seen):
                 continue
             seen.add(k[1])
             v = gen_kind(rng, schema, f.mapVKind, depth) if f.mapV == "message" else gen_scalar(rng, f.mapV)
+            if f.mapV != "message" and rng.random() < 0.3:
+                v = {"bool": ("b", False), "float": ("f32", 0), "double": ("f64", 0), "string": ("s", b""), "bytes": ("y", b"")}.get(f.mapV, ("i", 0))
             items.append((k, v))
         return ("D", items)
 
